@@ -109,7 +109,7 @@ fn gen_fragment(rng: &mut Rng) -> String {
         }
         NUMBERS[rng.usize_below(NUMBERS.len())].to_string()
     };
-    match rng.below(106) {
+    match rng.below(108) {
         0..=24 => format!("\\{} ", voc[rng.usize_below(voc.len())]),
         25..=34 => num(rng),
         35..=39 => UNITS[rng.usize_below(UNITS.len())].to_string(),
@@ -235,6 +235,27 @@ fn gen_fragment(rng: &mut Rng) -> String {
             rng.pick(&[".999993", "0.9999999", ".99999", "1.999999", "-.999999", "0.5", "16383.999999"]),
             rng.pick(&["em", "ex", "\\dimen1", "\\skip2", "\\count1", "em plus .999999ex minus 0.9999999\\dimen2", "pt"])
         ),
+        106..=107 => {
+            // \ifcase with a case number at the ends of the integer range (-2^31 is reached by \advance only) and several
+            // \or at depth 0: whatever counts the cases still to skip sees the extreme values, one step per \or
+            let r = rng.below(3);
+            let (setup, n) = match rng.below(8) {
+                0..=1 => (format!("\\count{r}=-2147483647 \\advance\\count{r} by -1 "), format!("\\count{r}")),
+                2 => (String::new(), "-2147483647 ".to_string()),
+                3 => (String::new(), format!("-214748364{} ", 4 + rng.below(4))),
+                4 => (String::new(), "2147483647 ".to_string()),
+                5 => (format!("\\count{r}=2147483647 "), format!("\\count{r}")),
+                6 => (String::new(), format!("{} ", rng.range_i64(-3, 6))),
+                _ => (String::new(), num(rng) + " "),
+            };
+            let mut t = format!("{setup}\\ifcase {n}");
+            for i in 0..rng.below(7) {
+                t.push_str(*rng.pick(&["a", "", "\\ifcase 1 x\\or y\\or z\\fi ", "\\iftrue b\\else c\\fi ", "\\a", "{", "}"]));
+                t.push_str(if i == 3 && rng.chance(1, 6) { "\\else " } else { "\\or " });
+            }
+            t.push_str(*rng.pick(&["z\\fi ", "\\else e\\fi ", "\\fi ", "", "\\or\\or\\or\\fi "]));
+            t
+        }
         101..=103 => {
             // the end-line character changed on an EARLIER line (it takes effect when the next line is read), then a
             // construct whose last character is the last character of a line or of the input: a lone escape
